@@ -71,7 +71,7 @@ Emit == (DoEmit /\ TextOK(m) /\ RootKeyOK) =>
       vs |-> SetToSeq({[key |-> Join(k), go |-> go, x |-> Join(RenderCompact(AnyXml(m.kv[k], RT, ElementTag, EO(go)), EO(go)))] : k \in DOMAIN m.kv, go \in BOOLEAN})]))
 Spec == GenSpec
 cKeys == {<<"a">>, <<"b">>, Cs1(AP) \o <<"x">>, TK}      \* (with AP = "": no key is an attribute)
-cScalars == {VS(<<>>), VS(<<"y">>), VS(<<"<", "&">>), VS(<<"]", "]", ">">>), VF(<<"1", ".", "5">>), VB(<<"t", "r", "u", "e">>), VNilC}
-cScalarsQ == {VS(<<>>), VS(<<"<", "&">>), VS(<<"]", "]", ">">>), VF(<<"1", ".", "5">>), VNilC}
+cScalars == {VS(<<>>), VS(<<"y">>), VS(<<"<", "&">>), VS(<<"]", "]", ">">>), VS(<<"&", "l", "t", ";">>), VF(<<"1", ".", "5">>), VB(<<"t", "r", "u", "e">>), VNilC}
+cScalarsQ == {VS(<<>>), VS(<<"<", "&", "l", "t", ";">>), VS(<<"]", "]", ">">>), VF(<<"1", ".", "5">>), VNilC}
 cConts == {EmptyMap, EmptyList}
 =============================================================================
